@@ -664,6 +664,10 @@ class DocTest:
             # sys.modules[dummy_name] = dummy_mod
 
             test_globals.update(self.module.__dict__)
+            if isinstance(test_globals.get('__annotations__', None), dict):
+                # An annotated assignment in the doctest writes into this
+                # dict: give the doctest a copy, not the module's own.
+                test_globals['__annotations__'] = dict(test_globals['__annotations__'])
             # test_globals.update(dummy_mod.__dict__)
             # importable_attrs = {
             #     k: v for k, v in self.module.__dict__.items()
